@@ -84,10 +84,10 @@ def entry_points(prog):
     return sorted(set(k for k in es if k in prog.funcs))
 
 
-def run_inventory(ctx, rule, entries, scope_note, cfg="default"):
+def run_inventory(ctx, rule, entries, scope_note, cfg="default", stop=None):
     p = ctx.prog(cfg)
     table = panics.load_table(TABLE)
-    recs, keys, an = panics.inventory(p, entries, make_stop(p), table)
+    recs, keys, an = panics.inventory(p, entries, stop or make_stop(p), table)
     counts = {}
     used = set()
     for r in recs:
